@@ -16,7 +16,7 @@ use std::io::Write;
 
 pub const TYPES: &[&str] = &[
     "time", "aead", "vcommit", "write", "account", "file", "device", "record", "cproof", "cstate",
-    "comparison", "vaultmeta", "secretmeta", "secret",
+    "comparison", "vaultmeta", "secretmeta", "secret", "tagset",
 ];
 
 fn gen_time(r: &mut Rng) -> UtcDateTime {
@@ -130,13 +130,15 @@ fn gen_secret_meta(r: &mut Rng) -> sos_vault::secret::SecretMeta {
     use sos_vault::secret::{SecretMeta, SecretType};
     let kinds = [SecretType::Note, SecretType::Account, SecretType::List, SecretType::Card, SecretType::File];
     let mut m = SecretMeta::new(gen_string(r), *r.pick(&kinds));
-    // at most one tag: a HashSet of several is written in iteration order (same value, other bytes)
-    match r.below(5) {
+    // several tags: the set must be written in an order that depends on its contents only
+    match r.below(7) {
         0 => {}
         1 => m.set_tags(["work".to_string()].into_iter().collect()),
         2 => m.set_tags([String::new()].into_iter().collect()),
         3 => m.set_tags(["  ".to_string()].into_iter().collect()),
-        _ => m.set_tags([gen_string(r)].into_iter().collect()),
+        4 => m.set_tags([gen_string(r)].into_iter().collect()),
+        5 => m.set_tags(["work".to_string(), "home".to_string(), "bank".to_string(), gen_string(r)].into_iter().collect()),
+        _ => m.set_tags((0..(2 + r.below(6))).map(|i| format!("t{i}{}", gen_string(r))).collect()),
     }
     m.set_favorite(r.below(2) == 0);
     m.set_date_created(gen_time(r));
@@ -165,8 +167,14 @@ fn gen_secret(r: &mut Rng) -> sos_vault::secret::Secret {
         0 => mock::note("l", &a),
         1 => mock::login("l", &a, b.clone().into()),
         2 => {
+            // a list of several items: a map, written in an order that must depend on its contents only
             let mut h = std::collections::HashMap::new();
             h.insert(a.as_str(), b.as_str());
+            let extra = ["k1", "k2", "k3", "user", "pin", "zz"];
+            let n = r.below(6) as usize;
+            for k in &extra[..n] {
+                h.insert(*k, b.as_str());
+            }
             mock::list("l", h)
         }
         3 => mock::card("l", &a, &b),
@@ -189,6 +197,52 @@ fn gen_secret(r: &mut Rng) -> sos_vault::secret::Secret {
         s.user_data_mut().set_recovery_note(Some(gen_string(r)));
     }
     s
+}
+
+/// the tag field of the encoding of a SecretMeta holding `tags` (inserted in the given order): the bytes between
+/// the prefix and the suffix it shares with the encoding of the same meta data without tags
+fn tag_section(rt: &tokio::runtime::Runtime, tags: &[String]) -> Vec<u8> {
+    use sos_vault::secret::{SecretMeta, SecretType};
+    let fixed: UtcDateTime = time::OffsetDateTime::from_unix_timestamp(1_700_000_000).unwrap().into();
+    let mk = |tags: &[String]| {
+        let mut m = SecretMeta::new(String::new(), SecretType::Note);
+        m.set_date_created(fixed.clone());
+        m.set_last_updated(fixed.clone());
+        let mut set = std::collections::HashSet::new();
+        for t in tags {
+            set.insert(t.clone());
+        }
+        m.set_tags(set);
+        m
+    };
+    let e0 = rt.block_on(encode(&mk(&[]))).expect("encode");
+    let et = rt.block_on(encode(&mk(tags))).expect("encode");
+    if tags.is_empty() {
+        return vec![0, 0, 0, 0];
+    }
+    let p = e0.iter().zip(et.iter()).position(|(a, b)| a != b).unwrap_or(e0.len());
+    let s = e0.len().saturating_sub(p + 4);
+    et[p..et.len() - s].to_vec()
+}
+fn tags_to_bytes(tags: &[String]) -> Vec<u8> {
+    let mut b = (tags.len() as u32).to_le_bytes().to_vec();
+    for t in tags {
+        b.extend_from_slice(&(t.len() as u32).to_le_bytes());
+        b.extend_from_slice(t.as_bytes());
+    }
+    b
+}
+fn tags_from_bytes(b: &[u8]) -> Option<Vec<String>> {
+    let mut pos = 4usize;
+    let n = u32::from_le_bytes(b.get(0..4)?.try_into().ok()?) as usize;
+    let mut out = vec![];
+    for _ in 0..n {
+        let l = u32::from_le_bytes(b.get(pos..pos + 4)?.try_into().ok()?) as usize;
+        pos += 4;
+        out.push(String::from_utf8(b.get(pos..pos + l)?.to_vec()).ok()?);
+        pos += l;
+    }
+    Some(out)
 }
 
 macro_rules! roundtrip {
@@ -248,6 +302,22 @@ pub fn gen(spec: &str, out: &mut impl Write) {
                 (bytes, same)
             }
             "secret" => roundtrip!(rt, gen_secret(&mut r), sos_vault::secret::Secret),
+            "tagset" => {
+                // distinct tags in a generated order; the case is that list, the observation the tag field of the
+                // real encoding; rt: the field is the same whichever order the set was filled in
+                let n = 1 + r.below(7) as usize;
+                let mut tags: Vec<String> = vec![];
+                for i in 0..n {
+                    let t = format!("{}{}", gen_string(&mut r), ["", "a", "b", "Z", "0", "~", "\u{e9}"][i]);
+                    if !tags.contains(&t) {
+                        tags.push(t);
+                    }
+                }
+                let mut rev = tags.clone();
+                rev.reverse();
+                let same = tag_section(&rt, &tags) == tag_section(&rt, &rev);
+                (tags_to_bytes(&tags), same)
+            }
             _ => unreachable!(),
         };
         writeln!(out, "T={} B={} rt={}", ty, hex::encode(&bytes), same as u8).unwrap();
@@ -282,6 +352,13 @@ pub fn decode_one(rt: &tokio::runtime::Runtime, ty: &str, bytes: &[u8]) -> Strin
         "vaultmeta" => redecode!(rt, bytes, sos_vault::VaultMeta),
         "secretmeta" => redecode!(rt, bytes, sos_vault::secret::SecretMeta),
         "secret" => redecode!(rt, bytes, sos_vault::secret::Secret),
+        "tagset" => match tags_from_bytes(bytes) {
+            Some(mut tags) => {
+                tags.reverse();
+                format!("ok {}", hex::encode(tag_section(rt, &tags)))
+            }
+            None => "err".to_string(),
+        },
         _ => "unknown-type".to_string(),
     }
 }
